@@ -53,6 +53,18 @@ type CheckSpec struct {
 	Stubs       []string      `json:"stubs"`
 	Outside     []string      `json:"outside_the_claim"`
 	Harnesses   []HarnessSpec `json:"harnesses"`
+	CallSites   []CallSiteObl `json:"call_site_obligations"`
+}
+
+// CallSiteObl is a structural obligation on the SSA of a package that the
+// executor cannot enter (cobra closures): every function that calls Anchor
+// must call MustCall and must not call MustNotCall.
+type CallSiteObl struct {
+	Pkg         string `json:"pkg"`
+	Anchor      string `json:"in_functions_calling"`
+	MustCall    string `json:"must_call"`
+	MustNotCall string `json:"must_not_call"`
+	Msg         string `json:"msg"`
 }
 
 type KnownFinding struct {
@@ -158,6 +170,12 @@ func main() {
 		parts := strings.Split(p, "/")
 		overlay[filepath.Join(*repo, p, "zz_verif_rt.go")] = []byte(strings.Replace(string(tmpl), "package PKG", "package "+parts[len(parts)-1], 1))
 		patterns = append(patterns, "./"+p)
+	}
+	for _, o := range spec.CallSites {
+		if !pkgs[o.Pkg] {
+			pkgs[o.Pkg] = true
+			patterns = append(patterns, "./"+o.Pkg)
+		}
 	}
 	sort.Strings(patterns)
 	tLoad := time.Now()
@@ -372,9 +390,34 @@ func main() {
 		}
 	}
 
+	// ---- structural call-site obligations ----
+	var callSiteEv []any
+	if *only == "" {
+		for _, o := range spec.CallSites {
+			sites := prog.CallSites("github.com/Vedant9500/WTF/"+o.Pkg, o.Anchor)
+			if len(sites) == 0 {
+				inconclusive = append(inconclusive, fmt.Sprintf("call-site obligation: no function in %s calls %s any more", o.Pkg, o.Anchor))
+			}
+			for fn, callees := range sites {
+				ok := (o.MustCall == "" || callees[o.MustCall]) && (o.MustNotCall == "" || !callees[o.MustNotCall])
+				callSiteEv = append(callSiteEv, map[string]any{"function": fn, "obligation": o.Msg, "holds": ok})
+				if !ok {
+					nReplays++
+					rp := filepath.Join(replayDir, fmt.Sprintf("callsite_%d.json", nReplays))
+					jb, _ := json.MarshalIndent(map[string]any{"property": id, "kind": "call-site", "function": fn, "obligation": o}, "", " ")
+					os.WriteFile(rp, jb, 0o644)
+					violations++
+					outLines = append(outLines, fmt.Sprintf("VIOLATION property=%s replay=%s", id, rp))
+					outLines = append(outLines, fmt.Sprintf("  call-site obligation fails in %s: %s", fn, o.Msg))
+				}
+			}
+		}
+	}
+
 	// ---- evidence ----
 	wall := time.Since(t0).Seconds()
 	ev := buildEvidence(id, *tier, seed, spec, results, inconclusive, violations, nReplays, nReproduced, wall, loadS, outLines)
+	ev["coverage"].(map[string]any)["call_site_obligations"] = callSiteEv
 	os.MkdirAll(filepath.Join(verifDir, "evidence"), 0o755)
 	eb, _ := json.MarshalIndent(ev, "", " ")
 	if err := os.WriteFile(filepath.Join(verifDir, "evidence", id+".json"), eb, 0o644); err != nil {
